@@ -1,6 +1,7 @@
 #!/bin/bash
 # No-false-alarm self-test: every check, quick tier (or $TIER), on the unchanged tree, for several VERIF_SEED values.
 # usage: selftest/clean.sh [seed ...]      (default seeds: 1 2 3)
+mkdir -p /root/scratch
 SEEDS="${@:-1 2 3}"
 rc=0
 for s in $SEEDS; do
